@@ -31,6 +31,7 @@ import stages
 PLANS = {}
 
 PLANS["C04"] = {
+    "stages": {"quick": [stages.memcheck_stage("C04", "", 3200, 160000)], "thorough": [stages.memcheck_stage("C04", "", 3200, 160000), stages.miri_stage("C04", "", 40)]},
     "jobs": {
         "quick": [("", "release", 24000), ("", "dev", 6000), ("lang", "release", 12000)],
         "thorough": [("", "release", 1200000), ("", "dev", 200000), ("lang", "release", 400000), ("lang", "dev", 60000)],
@@ -83,6 +84,7 @@ PLANS["C09"] = {
 }
 
 PLANS["C18"] = {
+    "stages": {"quick": [], "thorough": [stages.miri_stage("C18", "", 30)]},
     "jobs": {
         "quick": [("", "release", 301 * 7 * 5), ("", "dev", 301 * 7 * 2)],
         "thorough": [("", "release", 301 * 7 * 300), ("", "dev", 301 * 7 * 60)],
@@ -169,6 +171,7 @@ PLANS["C02"] = {
 }
 
 PLANS["C03"] = {
+    "stages": {"quick": [stages.memcheck_stage("C03", "capi", 1600, 80000)], "thorough": [stages.memcheck_stage("C03", "capi", 1600, 80000), stages.miri_stage("C03", "capi", 24)]},
     "jobs": {
         "quick": [("", "release", 14000), ("", "dev", 1600), ("d2", "release", 640), ("capi", "release", 3200)],
         "thorough": [("", "release", 600000), ("", "dev", 48000), ("d2", "release", 16000), ("capi", "release", 160000)],
@@ -314,6 +317,7 @@ PLANS["C11"] = {
 }
 
 PLANS["C16"] = {
+    "stages": {"quick": [], "thorough": [stages.miri_stage("C16", "", 120)]},
     "prepare": stages.c16_float_vectors,
     "jobs": {
         "quick": [("", "release", 600000), ("", "dev", 60000)],
@@ -412,6 +416,7 @@ PLANS["C07"] = {
 
 PLANS["C08"] = {
     "oom_is_excluded": True,
+    "stages": {"quick": [stages.memcheck_stage("C08", "", 32000, 1600000)], "thorough": [stages.memcheck_stage("C08", "", 32000, 1600000), stages.miri_stage("C08", "", 60)]},
     "jobs": {
         "quick": [("", "release", 1200000), ("", "dev", 240000)],
         "thorough": [("", "release", 48000000), ("", "dev", 9600000)],
@@ -435,5 +440,5 @@ PLANS["C08"] = {
     "require": [need_set("words_reached", 248), need_set("xerr_variants", 22), need("call:eval", 60000), need("call:compile", 60000),
                 need("call:run", 15000), need("call:next", 15000), need("call:rnext", 60000), need("call:pretty_error", 200000),
                 need("call:format_cell", 200000), need("soups:long-lived", 30000), need_set("arity1_class_tuples", 38),
-                need_set("arity2_class_tuples", 1000), need_set("arity3_class_tuples", 3000)],
+                need_set("arity2_class_tuples", 1000), need_set("arity3_class_tuples", 3000), need("memcheck_cases_without_report", 20000)],
 }
